@@ -287,3 +287,33 @@ func SetterBuild(a *model.Claims) (psatoken.IClaims, error) {
 	}
 	return c, nil
 }
+
+// Fresh returns an empty claims object of the implementation that the abstract
+// set belongs to (no profile claim preset), ready to be decoded into.
+func Fresh(a *model.Claims) psatoken.IClaims {
+	if a.P == 1 {
+		return &psatoken.P1Claims{SwComponents: &psatoken.SwComponents[*psatoken.SwComponent]{}, CanonicalProfile: a.Canon}
+	}
+	return &psatoken.P2Claims{SwComponents: &psatoken.SwComponents[*psatoken.SwComponent]{}, CanonicalProfile: a.Canon}
+}
+
+type cborUnmarshaler interface{ UnmarshalCBOR([]byte) error }
+type jsonUnmarshaler interface{ UnmarshalJSON([]byte) error }
+
+// FromCBOR decodes wire bytes with the per-type unmarshal method.
+func FromCBOR(a *model.Claims, wire []byte) (psatoken.IClaims, error) {
+	c := Fresh(a)
+	if err := c.(cborUnmarshaler).UnmarshalCBOR(wire); err != nil {
+		return nil, err
+	}
+	return c, nil
+}
+
+// FromJSON decodes a JSON document with the per-type unmarshal method.
+func FromJSON(a *model.Claims, doc []byte) (psatoken.IClaims, error) {
+	c := Fresh(a)
+	if err := c.(jsonUnmarshaler).UnmarshalJSON(doc); err != nil {
+		return nil, err
+	}
+	return c, nil
+}
